@@ -600,6 +600,20 @@ func (fc *FnCtx) transBin(env *Env, e *CBin) (Val, types.Type) {
 	if lt.Sort == "Str" && e.Op == "+" {
 		return tb.App("s_cat", "Str", lt, rt), ltype
 	}
+	if lt.Sort == "Str" && rt.Sort == "Str" {
+		// Go's string order: the uninterpreted relation the code's comparisons use
+		slt := tb.DeclFun("s_lt", []string{"Str", "Str"}, "Bool")
+		switch e.Op {
+		case "<":
+			return tb.App(slt, "Bool", lt, rt), boolT
+		case ">":
+			return tb.App(slt, "Bool", rt, lt), boolT
+		case "<=":
+			return tb.Not(tb.App(slt, "Bool", rt, lt)), boolT
+		case ">=":
+			return tb.Not(tb.App(slt, "Bool", lt, rt)), boolT
+		}
+	}
 	if lt.Sort != "Int" || rt.Sort != "Int" {
 		fc.tfail("operator %s on sorts %s,%s", e.Op, lt.Sort, rt.Sort)
 	}
